@@ -161,6 +161,32 @@ impl Prop for C04 {
     fn strategy(&self, tier: Tier) -> BoxedStrategy<Case> {
         case_strategy(&profile(tier))
     }
+    fn extra(&self, _ctx: &Ctx, shard: usize, rep: &mut crate::runner::ShardReport) {
+        // deep-queue scenario: 1500 flushes queued against a parked worker (the caller ends up
+        // blocked on the full request channel), then everything drains; every ack is judged
+        if shard != 0 {
+            return;
+        }
+        let r = crate::deepq::deep_queue(1500).and_then(|(rec, blocked)| {
+            let (judged, batched, _) = judge_acks(&rec)?;
+            for f in &rec.flushes {
+                let n = rec.trace.iter().filter(|e| matches!(e, Ev::Ack { flush, ok: true, .. } if *flush == f.id)).count();
+                if n != 1 {
+                    return Err(Fail::new("ack-missing", format!("flush {} of the deep-queue scenario was acknowledged Ok {} times", f.id, n)));
+                }
+            }
+            Ok((judged, batched, blocked))
+        });
+        match r {
+            Ok((judged, batched, blocked)) => {
+                rep.evaluations += judged;
+                *rep.labels.entry("deep_queue_acks_judged".into()).or_insert(0) += judged;
+                *rep.labels.entry("deep_queue_acks_in_one_batch".into()).or_insert(0) += batched;
+                *rep.labels.entry("deep_queue_caller_blocked_on_full_channel".into()).or_insert(0) += blocked;
+            }
+            Err(f) => rep.violations.push(crate::runner::Violation { key: format!("deep-queue/{}", f.key), msg: format!("deep-queue scenario (1500 append+flush against a parked worker): {}", f.msg), case: serde_json::to_value(crate::ops::sample_case()).unwrap(), origin: "deep-queue".into() }),
+        }
+    }
     fn run_case(&self, case: &Case, _ctx: &Ctx) -> Result<CaseInfo, Fail> {
         let mut info = CaseInfo::default();
         let rec = crash::record(case, false, true)?;
